@@ -306,6 +306,8 @@ class RecipeRun:
         elif pred == 'RuntimeError' and kind != 'RuntimeError':
             if kind == 'ok':
                 self.V('C16', 'accepted_after_bake', key, f"{k} accepted after a successful bake")
+            elif k in ('dilute', 'create_solution', 'create_solution_from') and self.try_eager(c)[0] != 'ok':
+                self.stats['post_bake_invalid_arguments_unjudged'] += 1     # argument validation may legitimately come first
             elif not soft:
                 self.V('C16', 'wrong_exception_after_bake', key + (kind,), f"{k} after bake raised {kind} instead of RuntimeError: {out[1]}")
         # ---------------- mirror the effect
